@@ -5,7 +5,7 @@ for i in 1 2; do
   d=/tmp/wt/$p/out
   [ -f $d/patch$i.diff ] || continue
   pkg=$(head -1 $d/notes$i.md | sed -n 's/^package-dir: *//p'); [ -z "$pkg" ] && pkg=.
-  sfx=$(echo $i | tr 12 ab)
+  sfx=$(echo $i | tr 12 ${SFX:-ab})
   python3 /verif/tools/seed_eval.py $p-$sfx $p $d/patch$i.diff $d/demo${i}_test.go $d/notes$i.md $pkg 2>&1 | python3 -c "
 import sys,json
 t=sys.stdin.read()
